@@ -39,12 +39,12 @@ FAMILIES_QUICK = [
 ]
 FAMILIES_THOROUGH = [
     ("design-21", A21, 5),
-    ("core-14", A14, 6),
-    ("containers-8", b"()[a1' \n", 7),
-    ("strings-8", b'"`\\ax4\n@', 7),
-    ("longstring-5", b"`a \n\r", 8),
     ("escape-6", b'"\\xu4G', 7),
     ("lines-6", b"a(\r\n#\"", 7),
+    ("longstring-5", b"`a \n\r", 8),
+    ("containers-8", b"()[a1' \n", 7),
+    ("strings-8", b'"`\\ax4\n@', 7),
+    ("core-14", A14, 6),
 ]
 
 
@@ -168,9 +168,10 @@ def enum_work(k, n):
 
 
 def part_enum(chk, fams):
-    done = [(a, m) for _, a, m in ENUM_DONE]
-    stopped = False
+    """families in order; a family whose next length does not fit the remaining time is capped at
+    the last completed length and the next (cheaper) family is tried"""
     for name, alpha, maxlen in fams:
+        done = [(a, m) for _, a, m in ENUM_DONE]
         completed = -1
         for n in range(0, maxlen + 1):
             if any(set(alpha) <= a2 and n <= m2 for a2, m2 in done):
@@ -181,7 +182,6 @@ def part_enum(chk, fams):
             if chk.out_of_time(0.80) or chk.elapsed() + predicted > chk.budget * 0.92:
                 chk.cap("enum %s: stopped before length %d (of %d)%s" % (
                     name, n, maxlen, "" if chk.out_of_time(0.80) else " -- predicted %.0f s would exceed the budget" % predicted))
-                stopped = True
                 break
             items = chunk_items_for_family(alpha, n)
             t0 = chk.elapsed()
@@ -193,11 +193,8 @@ def part_enum(chk, fams):
             if nviol == 0 and nstr != len(alpha) ** n:
                 raise HarnessError("enum %s len %d: %d strings, expected %d" % (name, n, nstr, len(alpha) ** n))
             completed = n
-        done.append((set(alpha), completed))
         ENUM_DONE.append((name, set(alpha), completed))
         chk.part("enum:%s" % name, alphabet=esc(alpha), bound_completed="all strings of length <= %d" % completed)
-        if stopped:
-            break
     chk.cov["bound_completed"] = "; ".join("%s: all strings <= %d" % (n, m) for n, _, m in ENUM_DONE)
 
 
